@@ -346,8 +346,11 @@ func (r *clientRun) main() {
 		}
 		r.probes["recovery_calls_checked"]++
 	}
+	closeStart := simrt.Now()
 	st1 := r.cl.Close()
-	r.closed, r.closeAt = true, simrt.Now()
+	if !r.closed {
+		r.closed, r.closeAt = true, closeStart
+	}
 	st2 := r.cl.Close()
 	if !st1.OK() || !st2.OK() {
 		simrt.Fail("C19-close", "Close returned %s, a second Close returned %s", stName(st1), stName(st2))
@@ -429,13 +432,14 @@ func (r *clientRun) clientTask(i int, ops []CliOp) {
 			}
 			ch.Free()
 		case "close":
+			closeStart := simrt.Now()
 			st := r.cl.Close()
 			simrt.Logf("cli%d Close -> %s", i, stName(st))
 			if !st.OK() {
 				simrt.Fail("C19-close", "Close returned %s", stName(st))
 			}
 			if !r.closed {
-				r.closed, r.closeAt = true, simrt.Now()
+				r.closed, r.closeAt = true, closeStart
 			}
 			r.probes["concurrent_closes"]++
 		}
